@@ -219,6 +219,10 @@ class Family:
         """re-execute one plan, return trace file"""
         raise NotImplementedError
 
+    def group(self, traces, t, prop):
+        """traces whose inputs are needed together to reproduce a verdict on t (default: t alone)"""
+        return [t]
+
     def nontrivial(self, events, prop):
         return len(events) > 2
 
@@ -351,9 +355,10 @@ def _run_check(ctx, fam, prop, tier, t0):
         t = byfile[f]
         # reproduce: re-run the same inputs, validate alone
         reproduced = True
+        grp = fam.group(traces, t, prop)
         try:
-            f2 = fam.rerun(ctx, t["plan"])
-            _, r2 = validate_files(ctx, fam, [f2])
+            f2 = [fam.rerun(ctx, x["plan"]) for x in grp]
+            _, r2 = validate_files(ctx, fam, f2)
             reproduced = any(fam.viol_belongs(v[2], prop) and match_known(known, prop, v) is None for v in r2["viol"])
         except Infra as e:
             log("re-run failed: %s" % e)
@@ -363,7 +368,7 @@ def _run_check(ctx, fam, prop, tier, t0):
             exit_code = max(exit_code, 2)
             continue
         violations += 1
-        rp = save_replay(prop, tname, f, t["plan"], fam.name)
+        rp = save_replay(prop, tname, f, [x["plan"] for x in grp], fam.name)
         invs = sorted(set(v[2] for v in vs))
         print("VIOLATION property=%s replay=%s" % (prop, rp), flush=True)
         log("  violated: %s at trace lines %s" % (invs, sorted(set(v[1] - a + 1 for v in vs))[:5]))
@@ -395,8 +400,10 @@ def run_replay(fam, rp):
     try:
         if fam.adapter:
             ctx.bin = go_build(fam.adapter, out=os.path.join(ctx.dir, fam.adapter))
-        f = fam.rerun(ctx, rp["plan"])
-        idx, res = validate_files(ctx, fam, [f])
+        plans = rp["plan"] if isinstance(rp["plan"], list) else [rp["plan"]]
+        fs = [fam.rerun(ctx, x) for x in plans]
+        f = fs[-1]
+        idx, res = validate_files(ctx, fam, fs)
         known = load_known()
         bad = [v for v in res["viol"] if fam.viol_belongs(v[2], prop) and match_known(known, prop, v) is None]
         if not res["accepted"]:
